@@ -50,7 +50,7 @@ def check(ctx):
         else:
             vf.violation(ctx, "entry point differs from the frozen Config (%s, probe %s): %s" % (b["switch"], b["probe"], b["detail"][:300]), b)
     # encoder side on the universe
-    plan = emitcommon.plan_for(ctx, ("leaf", "wrap1", "st1", "st2", "emb") if ctx.quick else emitcommon.FAMS)
+    plan = emitcommon.plan_for(ctx, ("leaf", "wrap1", "st1l", "st1w", "st2", "emb", "bigmap") if ctx.quick else emitcommon.FAMS)
     ers, esums = emitcommon.run_rounds(ctx, plan, ctx.pick(2, 5))
     bindcommon.check_oracle(ctx, esums)
     emitcommon.judge(ctx, esums, ("panic", "error_required", "valid_rejected", "text_differs", "malformed_output", "entrypoint_mismatch",
